@@ -540,7 +540,24 @@ def gen_merged_table(rng):
         areas.append((x, y, z, tt))
     tail_cols = rng.choice([0, 0, 1, 3])
     parts = ['<table:table table:name="M">', f'<table:table-column table:number-columns-repeated="{w + tail_cols}"/>' if w + tail_cols > 1 else "<table:table-column/>"]
+    # stacked identical rows are stored as ONE repeated row element, as office applications do
+    stacked = rng.random() < 0.3 and all(rs == 1 for (_cs, rs) in span.values())
+    if stacked and h >= 1:
+        j0 = rng.randrange(h)
+        n = rng.randint(2, 3)
+        vals = vals[:j0 + 1] + [list(vals[j0]) for _ in range(n - 1)] + vals[j0 + 1:]
+        kind = kind[:j0 + 1] + [list(kind[j0]) for _ in range(n - 1)] + kind[j0 + 1:]
+        newspan, newareas = {}, []
+        for (x, y), (cs, rs) in span.items():
+            ys = [y] if y < j0 else ([y + n - 1] if y > j0 else [j0 + k for k in range(n)])
+            for yy in ys:
+                newspan[(x, yy)] = (cs, rs)
+                newareas.append((x, yy, x + cs - 1, yy))
+        span, areas, h = newspan, newareas, h + n - 1
+    row_xml = []
     for j in range(h):
+        parts_row = []
+        parts_keep, parts = parts, parts_row
         parts.append("<table:table-row>")
         i = 0
         while i < w:
@@ -563,9 +580,21 @@ def gen_merged_table(rng):
             else:
                 parts.append(f'<{tag} office:value-type="float" office:value="{v}"{at}><text:p>{v}</text:p></{tag}>')
             i = k + 1
-        if tail_cols and rng.random() < 0.7:
+        if tail_cols and (rng.random() < 0.7 if not stacked else True):
             parts.append(f'<table:table-cell table:number-columns-repeated="{tail_cols}"/>' if tail_cols > 1 else "<table:table-cell/>")
         parts.append("</table:table-row>")
+        parts = parts_keep
+        row_xml.append("".join(parts_row))
+    k = 0
+    while k < len(row_xml):
+        m = k
+        while stacked and m + 1 < len(row_xml) and row_xml[m + 1] == row_xml[k]:
+            m += 1
+        if m > k:
+            parts.append(row_xml[k].replace("<table:table-row>", f'<table:table-row table:number-rows-repeated="{m - k + 1}">', 1))
+        else:
+            parts.append(row_xml[k])
+        k = m + 1
     if rng.random() < 0.4:
         n = rng.randint(1, 3)
         parts.append(f'<table:table-row table:number-rows-repeated="{n}"><table:table-cell table:number-columns-repeated="{w + tail_cols}"/></table:table-row>'
